@@ -52,6 +52,7 @@ type Tap struct {
 	kinds   map[string]int // segment kinds seen (reach)
 	geo     []spec.SegGeo
 	record  bool
+	refServer bool // the server address belongs to a reference peer, not to mieru
 	wire    map[string][]byte
 }
 
@@ -301,7 +302,7 @@ func (t *Tap) StreamBytes(c *simnet.ConnInfo, dir simnet.Dir, off int64, b []byt
 		t.mu.Unlock()
 		return
 	}
-	attacker := t.isAttacker(c.ClientAddr)
+	attacker := t.isAttacker(c.ClientAddr) || (t.refServer && dir == simnet.S2C)
 	if attacker {
 		if dir == simnet.S2C {
 			if t.replied[c.ClientAddr] == 0 && t.isHostileAddr(c.ClientAddr) {
@@ -555,7 +556,7 @@ func (t *Tap) DatagramSent(d *simnet.Datagram) {
 			}
 		}
 	}
-	if t.isAttacker(d.Src) || (d.Dir == simnet.S2C && t.isAttacker(d.Dst)) {
+	if t.isAttacker(d.Src) || (d.Dir == simnet.S2C && (t.isAttacker(d.Dst) || t.refServer)) {
 		t.mu.Unlock()
 		return
 	}
